@@ -1,25 +1,89 @@
 #!/usr/bin/env python3
-"""Apply seeded/<name>/patch.diff to /repo, run the listed checks, undo the change.
-usage: tools/run_seeded.py <name> [property ids...]   (default: the property in meta.json)"""
-import json, os, subprocess, sys
+"""Run the checks against a seeded change (seeded/<name>/patch.diff) and record what caught it.
+
+usage: tools/run_seeded.py [--scratch] [--record] <name>|--all [property ids...]
+         (default property: the one in seeded/<name>/meta.json)
+
+default   : apply the patch to /repo (git -C /repo apply), run the checks, undo it (git -C /repo checkout -- .)
+--scratch : apply it to a scratch worktree of /repo under /tmp instead (removed afterwards) and point the
+            checks at it with ELFIO_REPO; /repo is not touched (use while other work needs /repo clean)
+--record  : write seeded/<name>/result.json (exit status, summary line, mechanism that fired, replay head)
+
+Evidence of these runs goes to build/seeded-evidence/, never to evidence/ (which describes the unchanged tree).
+"""
+import json, os, re, shutil, subprocess, sys
 V = os.path.dirname(os.path.dirname(os.path.abspath(__file__)))
-name = sys.argv[1]
-d = os.path.join(V, "seeded", name)
-meta = json.load(open(os.path.join(d, "meta.json"))) if os.path.exists(os.path.join(d, "meta.json")) else {}
-props = sys.argv[2:] or [meta.get("property")]
-assert subprocess.run(["git", "-C", "/repo", "status", "--porcelain"], capture_output=True, text=True).stdout.strip() == "", "/repo not clean"
-r = subprocess.run(["git", "-C", "/repo", "apply", os.path.join(d, "patch.diff")])
-if r.returncode:
-    sys.exit("patch does not apply")
+args = sys.argv[1:]
+scratch = "--scratch" in args
+record = "--record" in args
+args = [a for a in args if a not in ("--scratch", "--record")]
+if not args:
+    sys.exit(__doc__)
+names = sorted(os.listdir(os.path.join(V, "seeded"))) if args[0] == "--all" else [args[0]]
+names = [n for n in names if os.path.exists(os.path.join(V, "seeded", n, "patch.diff"))]
+want = args[1:]
+EV = os.path.join(V, "build", "seeded-evidence")
+os.makedirs(EV, exist_ok=True)
+SCR = "/tmp/repo_seeded_%d" % os.getpid()
+
+
+def run_one(name):
+    d = os.path.join(V, "seeded", name)
+    meta = json.load(open(os.path.join(d, "meta.json"))) if os.path.exists(os.path.join(d, "meta.json")) else {}
+    props = want or [meta.get("property")]
+    if scratch:
+        subprocess.run(["git", "-C", "/repo", "worktree", "add", "--detach", SCR, "HEAD"], check=True,
+                       capture_output=True)
+        repo = SCR
+    else:
+        repo = "/repo"
+        assert subprocess.run(["git", "-C", repo, "status", "--porcelain"], capture_output=True,
+                              text=True).stdout.strip() == "", "/repo not clean"
+    results = []
+    try:
+        r = subprocess.run(["git", "-C", repo, "apply", os.path.join(d, "patch.diff")])
+        if r.returncode:
+            print(f"{name}: patch does not apply")
+            return
+        env = dict(os.environ, ELFIO_REPO=repo, VERIF_EVIDENCE_DIR=EV)
+        for p in props:
+            r = subprocess.run([sys.executable, os.path.join(V, "check.py"), p], capture_output=True, text=True,
+                               cwd=V, env=env)
+            lines = r.stdout.splitlines()
+            viol = [l for l in lines if l.startswith("VIOLATION")]
+            summ = [l for l in lines if l.startswith(p + " ")]
+            print(f"{name} / {p}: exit {r.returncode}\n  " + "\n  ".join(viol + summ))
+            head = ""
+            for l in viol[:1]:
+                f = l.split("replay=")[1].split()[0]
+                if os.path.exists(f):
+                    head = " | ".join(open(f).read().splitlines()[:3])[:400]
+                    print("  replay head:", head)
+            mech = []
+            m = re.search(r"theorems (\d+)/(\d+).*corr-diffs (\d+), oracle-violations (\d+)", summ[0]) if summ else None
+            if m:
+                if int(m.group(1)) < int(m.group(2)):
+                    mech.append("proof obligation (regenerated sites / theorems no longer check)")
+                if int(m.group(3)):
+                    mech.append("correspondence (model and implementation differ)")
+                if int(m.group(4)):
+                    mech.append("property oracle on the implementation's output (concrete failing input)")
+            results.append({"property": p, "exit": r.returncode, "violation": viol, "summary": summ,
+                            "mechanisms": mech, "replay_head": head,
+                            "no_failing_input": any("no-failing-input-found" in l for l in viol)})
+    finally:
+        if scratch:
+            subprocess.run(["git", "-C", "/repo", "worktree", "remove", "--force", SCR], capture_output=True)
+            shutil.rmtree(SCR, ignore_errors=True)
+        else:
+            subprocess.run(["git", "-C", "/repo", "checkout", "--", "."])
+    if record and results:
+        with open(os.path.join(d, "result.json"), "w") as f:
+            json.dump({"name": name, "results": results}, f, indent=1)
+
+
 try:
-    for p in props:
-        r = subprocess.run([sys.executable, os.path.join(V, "check.py"), p], capture_output=True, text=True, cwd=V)
-        tail = [l for l in r.stdout.splitlines() if l.startswith("VIOLATION") or l.startswith(p)]
-        print(f"{name} / {p}: exit {r.returncode}\n  " + "\n  ".join(tail))
-        rp = [l.split("replay=")[1].split()[0] for l in r.stdout.splitlines() if l.startswith("VIOLATION")]
-        for f in rp[:1]:
-            if os.path.exists(f):
-                print("  replay head:", " | ".join(open(f).read().splitlines()[:3])[:400])
+    for n in names:
+        run_one(n)
 finally:
-    subprocess.run(["git", "-C", "/repo", "checkout", "--", "."])
     subprocess.run([sys.executable, os.path.join(V, "gen", "translate.py")], capture_output=True)
